@@ -62,7 +62,7 @@ def inner_nodes(t, is_root=True):
 class CardGen:
     def __init__(self, rng, tag, nbody=3, final_j2=(0, 0, 1, 2), top_j2=None, res_j2_int=(0, 2, 2, 4), res_j2_half=(1, 3, 3, 5),
                  n_chains=(1, 3), models=("default",), p_break_prob=0.5, massless_prob=0.0, res_per_slot=(1, 1),
-                 decay_opts_prob=0.3, fixed_finals=None, fixed_top=None, top_spins=None):
+                 decay_opts_prob=0.3, fixed_finals=None, fixed_top=None, top_spins=None, allow_forbidden=False):
         self.rng = rng
         self.tag = tag
         self.n = nbody
@@ -79,6 +79,7 @@ class CardGen:
         self.fixed_finals = fixed_finals
         self.fixed_top = fixed_top
         self.top_spins = top_spins
+        self.allow_forbidden = allow_forbidden
 
     def name(self, base):
         return "%s%s" % (base, self.tag)
@@ -234,12 +235,16 @@ class CardGen:
                     for B in cand(b, False):
                         good, pb = decay_ok(jp_of(M), jp_of(A), jp_of(B))
                         if not good:
+                            if self.allow_forbidden:
+                                continue
                             return None
                         if pb:
                             pb_choice = True
                         elif pb_choice is None:
                             pb_choice = False
             opts = {}
+            if self.allow_forbidden:
+                pb_choice = bool(rng.random() < self.p_break_prob)
             if pb_choice:
                 opts["p_break"] = True
             if rng.random() < self.decay_opts_prob:
@@ -279,17 +284,48 @@ class CardGen:
                     d["model"] = r["model"]
                 particle_cfg[r["name"]] = d
         config = {"decay": decay_cfg, "particle": particle_cfg, "data": {"dat_order": list(fnames)}}
-        # reference chain list (expanded over candidates)
+        # reference chain list (expanded over candidates), with the decays of every chain and the selection-rule verdict
+        byname = {r["name"]: r for lst in slot_res.values() for r in lst}
         ref_chains = []
         for tree in chosen:
             slots = [tuple(sorted(leaves(t))) for t in inner_nodes(tree)]
             for combo in itertools.product(*[slot_res[s] for s in slots]):
-                ref_chains.append({"tree": tree, "res": [r["name"] for r in combo]})
+                pick = {s: r for s, r in zip(slots, combo)}
+
+                def qn(t, is_root):
+                    if isinstance(t, int):
+                        return fnames[t], fj2[t], fp[t]
+                    if is_root:
+                        return tname, tj2, tp
+                    r = pick[tuple(sorted(leaves(t)))]
+                    return r["name"], r["j2"], r["p"]
+
+                decs = []
+                allowed = True
+
+                def walk(t, is_root):
+                    nonlocal allowed
+                    if isinstance(t, int):
+                        return
+                    m_, a_, b_ = qn(t, is_root), qn(t[0], False), qn(t[1], False)
+                    mname = tname if is_root else self.name(node_name(t))
+                    dn = tuple(fnames[ch] if isinstance(ch, int) else self.name(node_name(ch)) for ch in t)
+                    pbreak = bool(dec_opts[(mname, dn)].get("p_break", False))
+                    if not ref_ls(m_[1], a_[1], b_[1], m_[2], a_[2], b_[2], pbreak):
+                        allowed = False
+                    decs.append((m_[0], tuple(sorted((a_[0], b_[0])))))
+                    walk(t[0], False)
+                    walk(t[1], False)
+
+                walk(tree, True)
+                ref_chains.append({"tree": tree, "res": [r["name"] for r in combo], "decays": sorted(decs), "allowed": allowed})
+        if not any(c["allowed"] for c in ref_chains):
+            return None
         meta = {
             "n": n, "top": {"name": tname, "j2": tj2, "p": tp, "mass": m_top},
             "finals": [{"name": fnames[i], "j2": fj2[i], "p": fp[i], "mass": fm[i], "massless": massless[i]} for i in range(n)],
             "trees": [repr(t) for t in chosen], "resonances": [r for lst in slot_res.values() for r in lst],
-            "n_chains": len(ref_chains), "ref_chains": ref_chains, "dec_opts": {"%s->%s" % (k[0], "+".join(k[1])): v for k, v in dec_opts.items()},
+            "n_chains": sum(1 for c in ref_chains if c["allowed"]), "ref_chains": ref_chains, "dec_opts": {"%s->%s" % (k[0], "+".join(k[1])): v for k, v in dec_opts.items()},
             "spinning": any(j > 0 for j in fj2) or tj2 > 0 or any(r["j2"] > 0 for lst in slot_res.values() for r in lst),
         }
         return {"config": config, "meta": meta}
